@@ -92,6 +92,32 @@ pub const STMT_CTXS: &[StmtCtx] = &[
         in_closure: true,
         pure_ok: false,
     },
+    // the statements follow an early `ret` guard / an unconditional `ret` inside a closure of their own: they are
+    // still part of the program text and must be checked like any other statement
+    StmtCtx {
+        name: "closure-after-ret-guard",
+        f: |b, d| {
+            let n = format!("hg{}", d);
+            let mut body = vec![Stmt::Expr(if_e(bin(BinOp::Eq, var("k"), int(8)), vec![Stmt::Ret(None)], None))];
+            body.extend(b);
+            vec![cdef(&n, lambda(vec![], RetAnn::Void, body)), Stmt::Expr(callv(&n, vec![]))]
+        },
+        in_loop: false,
+        in_closure: true,
+        pure_ok: false,
+    },
+    StmtCtx {
+        name: "closure-dead-code-after-ret",
+        f: |b, d| {
+            let n = format!("hd{}", d);
+            let mut body = vec![Stmt::Ret(None)];
+            body.extend(b);
+            vec![cdef(&n, lambda(vec![], RetAnn::Void, body)), Stmt::Expr(callv(&n, vec![]))]
+        },
+        in_loop: false,
+        in_closure: true,
+        pure_ok: false,
+    },
     StmtCtx {
         name: "closure-with-param",
         f: |mut b, d| {
@@ -132,6 +158,21 @@ pub const STMT_CTXS: &[StmtCtx] = &[
         },
         in_loop: false,
         in_closure: false,
+        pure_ok: true,
+    },
+    StmtCtx {
+        name: "pu-closure-after-ret-guard",
+        f: |b, d| {
+            let n = format!("hp{}", d);
+            let q = format!("qp{}", d);
+            let mut body = vec![Stmt::Expr(if_e(bin(BinOp::Eq, var(&q), int(8)), vec![Stmt::Ret(Some(int(0)))], None))];
+            body.extend(b);
+            body.push(Stmt::Expr(var(&q)));
+            let f = Expr::Fn(std::sync::Arc::new(FnLit { params: vec![(q.clone(), Some(Ty::Int))], ret: RetAnn::Ty(Ty::Int), body, pure: true }));
+            vec![cdef(&n, f), cdef(&format!("yp{}", d), callv(&n, vec![int(1)]))]
+        },
+        in_loop: false,
+        in_closure: true,
         pure_ok: true,
     },
     StmtCtx {
